@@ -588,7 +588,7 @@ class Sim(object):
             self.count(self.configured, 'ioerr')
             if st == 'ok' and 'ioerr-fired' in out['fs']['marks']:
                 self.count(self.fired, 'ioerr')
-                self._io = {'kind': self._ckind, 'path': self._cpath, 'win': self._cwin}
+                self._io = {'kind': self._ckind, 'path': self._cpath, 'win': self._cwin, 'torn': getattr(self, '_ctorn', True)}
                 self.plan_digest.append(['ioerr', i, R, crash['event'], crash.get('tear'), self._ckind, crash.get('errno')])
                 self.info['ioerr_' + self._ckind.replace('-', '_')] = 1
                 self.note_fault()
@@ -661,7 +661,14 @@ class Sim(object):
         early = [e for e in log if e[0] < marks.get('render', 0)]
         restore = [e for e in early if e[1] == 'open-r' and str(e[2]).endswith('.paux')]
         late = [e for e in log if paux and e[0] > max(x[0] for x in paux)]
-        win = {'paux': paux, 'render': render, 'any': log, 'early': early, 'restore': restore, 'late': late}.get(plan['window']) or log
+        win = {'paux': paux, 'render': render, 'any': log, 'early': early, 'restore': restore, 'late': late}.get(plan['window'])
+        if plan.get('ioerr'):
+            # injected I/O errors are aimed at the label files only (the statement is about those; an unwritable
+            # OUTPUT file legitimately fails the run): no such event in this job -> no fault
+            win = [e for e in (win or []) if str(e[2]).endswith('.paux') or '.paux' in str(e[2])]
+            if not win:
+                return None
+        win = win or log
         ev = win[plan['k'] % len(win)]
         tear = plan.get('tear', 0)
         self._ckind = ev[1]
@@ -679,6 +686,19 @@ class Sim(object):
             return {'event': ev[0], 'tear': max(0, tear), 'ioerr': True, 'errno': plan.get('errno', 28)}
         return {'event': ev[0], 'tear': tear}
 
+    def merged(self, name, R, out):
+        """What the file may hold once a save of renderer R's block was written completely: whichever content the
+        old file really had (every candidate), with block R replaced by what this job saves.  An unloadable old
+        file (candidate {}) gives {R: saved}."""
+        saved = out['result']['saved'] or {}
+        blockR = dict((k, (v['ref'], v['title'], v['url'])) for k, v in saved.items())
+        res = []
+        for c in self.files[name]['cands']:
+            m = dict(c, **{R: blockR})
+            if m not in res:
+                res.append(m)
+        return res
+
     def after_crash(self, i, R, name):
         fm = self.files[name]
         kind, win = self._ckind, self._cwin
@@ -689,17 +709,12 @@ class Sim(object):
         if win == 'late':
             # killed after the save had completed (e.g. at the final chdir): the file holds the new content
             self.info['crash_after_save'] = 1
-            saved = self._dry['result']['saved'] or {}
-            blockR = dict((k, (v['ref'], v['title'], v['url'])) for k, v in saved.items())
-            fm.update(cands=[dict(c, **{R: blockR}) for c in fm['cands']] + ([{R: blockR}] if fm['state'] != 'clean' else []))
-            if fm['state'] == 'clean':
-                fm['cands'] = fm['cands'][:1]
-            else:
+            fm['cands'] = self.merged(name, R, self._dry)
+            if fm['state'] != 'clean':
                 fm['state'] = 'dirty'
             return
         if win != 'paux':
             return                                  # the saved file was not touched
-        new = self.expected_new(name, R, self._dry)
         if kind == 'open-r':
             self.info['crash_in_readback'] = 1
             return
@@ -713,24 +728,14 @@ class Sim(object):
                 self.info['crash_mid_write'] = 1
                 fm.update(state='dirty', cands=[{}])
             else:
-                fm.update(state='dirty', cands=[new, {}])
+                fm.update(state='dirty', cands=self.merged(name, R, self._dry) + [{}])
         elif kind == 'close':
-            fm.update(state='dirty', cands=[new, {}])
+            fm.update(state='dirty', cands=self.merged(name, R, self._dry) + [{}])
         else:
             # an event kind the shipped code does not produce here (rename, mkdir, copy ...): whatever protocol
             # the save uses, after a crash the file may hold the old content, the new content or nothing loadable
             old = [dict(c) for c in fm['cands']]
-            fm.update(state='dirty', cands=old + [new, {}])
-
-    def expected_new(self, name, R, out):
-        fm = self.files[name]
-        base = {}
-        if fm['state'] == 'clean':
-            base = dict(fm['cands'][0])
-        saved = out['result']['saved'] or {}
-        base = dict(base)
-        base[R] = dict((k, (v['ref'], v['title'], v['url'])) for k, v in saved.items())
-        return base
+            fm.update(state='dirty', cands=old + self.merged(name, R, self._dry) + [{}])
 
     def snapshot_blocks(self):
         snap = {}
@@ -860,8 +865,15 @@ class Sim(object):
             # the save itself failed with an I/O error (disk full ...): the run went on (I1 held); the file holds the
             # old content, a short write or nothing, exactly like after a crash - it must heal at the next save
             fm = self.files[name]
-            old = [dict(c) for c in fm['cands']] if fm['state'] == 'clean' else []
-            fm.update(state='dirty', cands=old + [{}])
+            kind = self._io['kind']
+            if kind in ('open-w', 'open-x'):
+                pass                                 # the open itself failed: the file was not touched
+            elif kind == 'write' and self._io.get('torn', True):
+                fm.update(state='dirty', cands=[{}])  # truncated by the open, then a short write
+            else:
+                fm.update(state='dirty', cands=self.merged(name, R, out) + [{}] + [dict(c) for c in fm['cands']])
+            if fm['state'] == 'clean' and kind in ('open-w', 'open-x'):
+                pass
             self.info['save_failed_run_continued'] = 1
             return
         if self._io and self._io['win'] == 'paux' and self._io['kind'] == 'open-r':
